@@ -27,13 +27,28 @@ var c11DateNames = []string{"before", "start", "inside", "end", "after", "unpars
 var c11RangeSets = [][]string{
 	{"20240101", "20240105", "20240110", "20240120", "20240131"},
 	{"20240407", "20240409", "20240601", "20241006", "20241007"},
+	// far from the present: before 1678 and after 2262 an instant no longer fits int64 nanoseconds
+	// (open-ended calendars are commonly written with end_date 99991231)
+	{"00010102", "16770101", "22620412", "99991230", "99991231"},
+}
+
+// c11ZoneDateCombos: every zone with the January dates; the southern switch days and the far
+// dates with three zones each. "Japan" and "EST5EDT" are tz database names without a slash.
+var c11ZoneDateCombos = []struct {
+	zone string
+	set  int
+}{
+	{"America/New_York", 0}, {"Europe/London", 0}, {"Mars/Phobos", 0}, {"Australia/Sydney", 0}, {"Australia/Lord_Howe", 0}, {"Japan", 0}, {"EST5EDT", 0},
+	{"America/New_York", 1}, {"Australia/Sydney", 1}, {"Australia/Lord_Howe", 1},
+	{"America/New_York", 2}, {"Australia/Sydney", 2}, {"Japan", 2},
 }
 
 func c11Harness(maxRows int) Harness {
 	return func(c *Ctx) {
 		m := genStaticFeedN(c, false, baseCounts, nil, nil)
-		zone := []string{"America/New_York", "Europe/London", "Mars/Phobos", "Australia/Sydney", "Australia/Lord_Howe"}[c.Free("first_agency_zone", 5)]
-		dates := append(append([]string{}, c11RangeSets[c.Free("date_set", 2)]...), "2024-01-10")
+		combo := c11ZoneDateCombos[c.Free("first_agency_zone_and_date_set", len(c11ZoneDateCombos))]
+		zone := combo.zone
+		dates := append(append([]string{}, c11RangeSets[combo.set]...), "2024-01-10")
 		m.t("agency.txt").set(0, "agency_timezone", zone)
 		cal := m.t("calendar.txt")
 		cd := m.t("calendar_dates.txt")
@@ -161,7 +176,7 @@ func init() {
 	register(&Check{
 		ID:    "C11",
 		Level: "model_checking",
-		Rule: "full product: calendar.txt {s1, empty, absent, s1+s2, s1 twice} x 0..2 (thorough 0..3) exception rows over 3 services x 6 dates (before/start/inside/end/after the s1 range, unparseable) x 3 exception types x 5 zones of the first agency (New_York, London, unknown, Sydney, Lord_Howe) x 2 date sets (January; the southern DST switch days) x map iteration starts 0, 1, 2 at every library range; " +
+		Rule: "full product: calendar.txt {s1, empty, absent, s1+s2, s1 twice} x 0..2 (thorough 0..3) exception rows over 3 services x 6 dates (before/start/inside/end/after the s1 range, unparseable) x 3 exception types x 13 (zone of the first agency, date set) combinations: New_York, London, unknown, Sydney, Lord_Howe, Japan, EST5EDT (names without a slash) with January dates; New_York, Sydney, Lord_Howe with the southern DST switch days; New_York, Sydney, Japan with dates in the years 1, 1677, 2262 and 9999 x map iteration starts 0, 1, 2 at every library range; " +
 			"non-trivial = distinct archives with at least one exception row; oracle = reference merge (all admissible readings) + direct invariants (unique ids, start <= exception <= end)",
 		Assumptions: []string{"two calendar rows with one id: either row may win", "an exception row with an unsupported type creates nothing, adds no date, and may or may not widen an existing range"},
 		Scenarios: func(tier string) []*Scenario {
